@@ -111,6 +111,19 @@ Theorem C07_same_code_weight_order : forall g t predict seen l1 a l2 b l3 ca ta 
 Proof. exact script_distinct_same_code_weight_order. Qed.
 Print Assumptions C07_same_code_weight_order.
 
+(** ... and without the restriction to one end position and one exactness class - the property's wording as it
+    stands: in the candidate list any two entries of one code appear in non-increasing dictionary weight order
+    (round 3; the manifest used to call this clause partial). *)
+Theorem C07_same_code_weight_order_any_end : forall g t predict seen l1 a l2 b l3 ca ta cb tb,
+  wf_graph g -> wf_table t -> table_sorted t -> 0 < g_ilen g ->
+  distinct_pe seen (script_phrase_entries (lookup g t 0 predict)) = l1 ++ a :: l2 ++ b :: l3 ->
+  In (fst a, ca) (lookup_chunks g t 0 predict) -> In ta (c_ents ca) -> snd a = mk_dentry ca ta ->
+  In (fst b, cb) (lookup_chunks g t 0 predict) -> In tb (c_ents cb) -> snd b = mk_dentry cb tb ->
+  c_code ca = c_code cb ->
+  (te_w tb <= te_w ta)%Z.
+Proof. exact script_distinct_same_code_weight_order_full. Qed.
+Print Assumptions C07_same_code_weight_order_any_end.
+
 (** the candidate list of ScriptTranslator::Query is the sentence (if any) followed by that deduplicated stream *)
 Theorem C07_script_query_shape : forall (poet : wgraph -> nat -> option sentence) wordcompl mh g t,
   let predict := wordcompl && (g_ilen g =? g_input_len g) in
